@@ -27,11 +27,12 @@ def run_check(pid, tier, root, seed=0):
         cmd = '/venv/bin/python -m sfcv check %s --tier %s' % (pid, tier)
         return report.finish(check, seed, cmd)
     except AnalysisError as e:
-        print('ANALYSIS-ERROR property=%s %s' % (pid, e))
+        report.emit('ANALYSIS-ERROR property=%s %s' % (pid, e))
+        return 2
+    except BrokenPipeError:
         return 2
     except Exception:
-        print('ANALYSIS-ERROR property=%s internal error in the analyser:' % pid)
-        traceback.print_exc(file=sys.stdout)
+        report.emit('ANALYSIS-ERROR property=%s internal error in the analyser:\n%s' % (pid, traceback.format_exc()))
         return 2
 
 
